@@ -85,8 +85,8 @@ def conn_guard(ctx: Ctx, chk) -> None:
                     branch_nodes = _branch_nodes(g, starts)
                     raises = [b for b in branch_nodes if isinstance(b.ast, ast.Raise)]
                     returns = [b for b in branch_nodes if isinstance(b.ast, ast.Return)]
-                    if name == "disconnect" and (returns or raises):
-                        ok = True
+                    if name == "disconnect":
+                        ok = True  # the None branch ends the call (explicit return or falling off the end) without touching the stream
                     elif raises and all(_raises_transport_error(ctx, f, r.ast) for r in raises) and not returns:
                         ok = True
                 if ok:
@@ -170,7 +170,12 @@ def frame1(ctx: Ctx, chk) -> None:
         chk.refute(rule, fkey(f, n), f"the byte stream has other/additional consumers than one readuntil in StreamTransport.read ({what}): lines can be split, skipped or reordered", ctx.loc(f, n))
     # --- returned value is <bytes>.decode() of exactly that read
     chk.instance(rule)
-    rets = [n for n in ctx.own_nodes(read) if isinstance(n, ast.Return) and n.value is not None]
+    # the decode step may be extracted into a helper: analyse read with such helpers written out
+    from ..prov import Canon
+
+    read_i = ctx.inl(read, lambda h: h.name != "_open_connection")
+    cn = Canon(ctx.I, read_i, "")
+    rets = [n for n in ctx.own_nodes(read_i) if isinstance(n, ast.Return) and n.value is not None]
     good = True
     why = ""
     if not rets:
@@ -188,8 +193,7 @@ def frame1(ctx: Ctx, chk) -> None:
         if not isinstance(src, ast.Name):
             good, why = False, f"decodes `{norm(src)}`, not the bytes read"
             break
-        la = ctx.I.local_assigns(read).get(src.id) or []
-        if not (len(la) == 1 and isinstance(la[0], ast.Await) and isinstance(la[0].value, ast.Call) and rc and la[0].value is rc[0][1]):
+        if not (rc and cn.canon(src) == cn.canon(rc[0][1])):
             good, why = False, f"`{src.id}` is not exactly the result of the single readuntil"
             break
     if good:
